@@ -576,3 +576,159 @@ def gen_EngineCpp(repo):
     L.append("]")
     L.append("\nend Strengths.Gen")
     return "\n".join(L) + "\n"
+
+
+# =============================================================================================
+# C17 : RDTrajectory accessors (slices, flat index) and the three sample-index lookups
+# =============================================================================================
+def _norm(src, node):
+    return re.sub(r"\s+", "", src.seg(node))
+
+
+def _lookup_fn(out, name):
+    """translate one `_get_sample_index_*` method: guards before the loop, loop condition, returned index"""
+    fn = out.func(name, "RDTrajectory")
+    names = {"t": "t", "self.t.get_at(0)": "t0", "self.t.get_at(self.nsamples()-1)": "tl",
+             "self.t.get_at(i)": "a", "self.t.get_at(i+1)": "b"}
+
+    def ret_expr(node, in_loop):
+        if not isinstance(node, ast.Return):
+            raise AnchorLost("rdoutput.py:%s expected return" % name)
+        v = node.value
+        if v is None or (isinstance(v, ast.Constant) and v.value is None):
+            return "none"
+        txt = _norm(out, v)
+        if isinstance(v, ast.Constant) and isinstance(v.value, int) and not isinstance(v.value, bool) and v.value >= 0:
+            return "(some %d)" % v.value
+        if txt == "self.nsamples()-1":
+            return "(some (n - 1))"
+        if in_loop and txt == "i":
+            return "(some i)"
+        if in_loop and re.fullmatch(r"i\+(\d+)", txt):
+            return "(some (i + %s))" % txt[2:]
+        raise AnchorLost("rdoutput.py:%s return value %s" % (name, txt))
+
+    pre, loop = [], None
+    body = [s for s in fn.body if not (isinstance(s, ast.Expr) and isinstance(s.value, ast.Constant))]
+    for st in body:
+        if isinstance(st, ast.If) and loop is None:
+            if st.orelse or len(st.body) != 1:
+                raise AnchorLost("rdoutput.py:%s guard shape" % name)
+            test = _norm(out, st.test)
+            if test == "len(self.t)==0":
+                cond = "(n == 0)"
+            else:
+                cond = ExprTr(out, names).tr(st.test)
+            pre.append((cond, ret_expr(st.body[0], False)))
+        elif isinstance(st, ast.For) and loop is None:
+            if _norm(out, st.iter) != "range(self.nsamples()-1)" or _norm(out, st.target) != "i" or st.orelse:
+                raise AnchorLost("rdoutput.py:%s loop header" % name)
+            if len(st.body) != 1 or not isinstance(st.body[0], ast.If) or st.body[0].orelse:
+                raise AnchorLost("rdoutput.py:%s loop body" % name)
+            inner = st.body[0]
+            cond = ExprTr(out, names).tr(inner.test)
+            loc = dict(names)
+            ret = None
+            for s2 in inner.body:
+                if isinstance(s2, ast.Assign) and len(s2.targets) == 1 and isinstance(s2.targets[0], ast.Name):
+                    loc[s2.targets[0].id] = ExprTr(out, loc).tr(s2.value)
+                elif isinstance(s2, ast.Return):
+                    ret = ret_expr(s2, True)
+                elif isinstance(s2, ast.If) and len(s2.body) == 1 and len(s2.orelse) == 1:
+                    ret = "(if %s then %s else %s)" % (ExprTr(out, loc).tr(s2.test), ret_expr(s2.body[0], True),
+                                                      ret_expr(s2.orelse[0], True))
+                else:
+                    raise AnchorLost("rdoutput.py:%s loop statement" % name)
+            if ret is None:
+                raise AnchorLost("rdoutput.py:%s loop return" % name)
+            loop = (cond, ret)
+        else:
+            raise AnchorLost("rdoutput.py:%s unexpected statement" % name)
+    if loop is None or not pre:
+        raise AnchorLost("rdoutput.py:%s guards / loop" % name)
+    return pre, loop
+
+
+@group
+def gen_TrajPy(repo):
+    out = PySrc(repo, "src/strengths/rdoutput.py")
+    L = ["namespace Strengths.Gen\n"]
+    for tag, name in (("closest", "_get_sample_index_closest"), ("infeq", "_get_sample_index_infeq"),
+                      ("supeq", "_get_sample_index_supeq")):
+        pre, (cond, ret) = _lookup_fn(out, name)
+        chain = "".join("if %s then some %s else " % (c, r) for c, r in pre) + "none"
+        L.append("/-- `RDTrajectory.%s`: the `if … : return …` statements before the loop (n = number of samples,\n"
+                 "t0 / tl = first / last sample time); `none` = falls through to the loop -/" % name)
+        L.append("def %sPre (n : Nat) (t t0 tl : Rat) : Option (Option Nat) := %s" % (tag, chain))
+        L.append("/-- loop `for i in range(self.nsamples()-1)`: test on a = t[i], b = t[i+1] -/")
+        L.append("def %sCond (t a b : Rat) : Bool := %s" % (tag, cond))
+        L.append("/-- value returned by the loop body at index i -/")
+        L.append("def %sRet (i : Nat) (t a b : Rat) : Option Nat := %s\n" % (tag, ret))
+    gsi = out.func("get_sample_index", "RDTrajectory")
+    pol, disp, conv = None, [], False
+    for n in ast.walk(gsi):
+        if isinstance(n, ast.Compare) and len(n.ops) == 1 and isinstance(n.ops[0], ast.NotIn) and _norm(out, n.left) == "policy":
+            pol = str_list(n.comparators[0])
+        if isinstance(n, ast.If) and isinstance(n.test, ast.Compare) and _norm(out, n.test.left) == "policy" \
+                and isinstance(n.test.ops[0], ast.Eq) and len(n.body) == 1 and isinstance(n.body[0], ast.Return):
+            disp.append((const_str(n.test.comparators[0]), _norm(out, n.body[0].value)))
+        if isinstance(n, ast.Assign) and _norm(out, n) == "t=UnitValue(t,self.t.units,convert=True)":
+            conv = True
+    if pol is None or not disp:
+        raise AnchorLost("rdoutput.py:get_sample_index policy list / dispatch")
+    first = gsi.body[1] if isinstance(gsi.body[0], ast.Expr) else gsi.body[0]
+    L.append("/-- `get_sample_index`: accepted policy strings, dispatch, and whether the first statement converts the\nquery to the units of the sample times -/")
+    L.append("def samplePolicies : List String := %s" % lean_list([lean_str(p) for p in pol]))
+    L.append("def sampleDispatch : List (String × String) := %s" %
+             lean_list(["(%s, %s)" % (lean_str(a), lean_str(b)) for a, b in disp]))
+    L.append("def sampleQueryConverted : Bool := %s\n" % ("true" if conv and _norm(out, first).startswith("t=UnitValue(") else "false"))
+
+    # accessor slices: every `….reshape((…))[slice]` of get_trajectory / get_state, in source order
+    def slices(fn):
+        res = []
+        for n in ast.walk(fn):
+            if isinstance(n, ast.Subscript) and isinstance(n.value, ast.Call) and getattr(n.value.func, "attr", "") == "reshape":
+                res.append((n.lineno, n.col_offset, _norm(out, n.value.func.value), _norm(out, n.slice)))
+        return [(a, b) for _, _, a, b in sorted(res)]
+    gt = out.func("get_trajectory", "RDTrajectory")
+    gs = out.func("get_state", "RDTrajectory")
+    gp = out.func("get_trajectory_point", "RDTrajectory")
+    st, ss = slices(gt), slices(gs)
+    if len(st) != 2 or len(ss) != 2:
+        raise AnchorLost("rdoutput.py:accessor slices")
+    L.append("/-- (array reshaped, slice) of `get_trajectory` (cell, merged) and `get_state` (whole, species) -/")
+    L.append("def trajectorySlices : List (String × String) := %s" % lean_list(["(%s, %s)" % (lean_str(a), lean_str(b)) for a, b in st]))
+    L.append("def stateSlices : List (String × String) := %s" % lean_list(["(%s, %s)" % (lean_str(a), lean_str(b)) for a, b in ss]))
+    # merge: `[sum(state) for state in …]`
+    merged = None
+    for n in ast.walk(gt):
+        if isinstance(n, ast.ListComp) and len(n.generators) == 1:
+            merged = (_norm(out, n.elt), _norm(out, n.generators[0].target))
+    if merged is None:
+        raise AnchorLost("rdoutput.py:get_trajectory merge comprehension")
+    L.append("def mergeComprehension : String × String := (%s, %s)" % (lean_str(merged[0]), lean_str(merged[1])))
+
+    # how the three accessors obtain their indices, and the units they return
+    def assigns(fn):
+        res = []
+        for n in ast.walk(fn):
+            if isinstance(n, ast.Assign) and len(n.targets) == 1 and isinstance(n.targets[0], ast.Name) \
+                    and n.targets[0].id in ("species_index", "cell_index", "sample_index"):
+                res.append((n.lineno, n.targets[0].id, _norm(out, n.value)))
+        return sorted(set((b, c) for _, b, c in res))
+    for tag, fn in (("Trajectory", gt), ("State", gs), ("Point", gp)):
+        L.append("def indexSources%s : List (String × String) := %s" %
+                 (tag, lean_list(["(%s, %s)" % (lean_str(a), lean_str(b)) for a, b in assigns(fn)])))
+    units_args = []
+    for fn in (gt, gs):
+        for n in ast.walk(fn):
+            if isinstance(n, ast.Call) and getattr(n.func, "id", "") == "UnitArray" and len(n.args) >= 2:
+                units_args.append(_norm(out, n.args[1]))
+    L.append("def accessorUnits : List String := %s" % lean_list([lean_str(u) for u in units_args]))
+    L.append("def pointAccessor : String := %s" % lean_str(_norm(out, [n for n in ast.walk(gp) if isinstance(n, ast.Return)][-1].value.func)))
+    # shape methods
+    for nm in ("ncells", "nspecies", "nsamples"):
+        f = out.func(nm, "RDTrajectory")
+        L.append("def shape_%s : String := %s" % (nm, lean_str(_norm(out, f.body[-1].value))))
+    L.append("\nend Strengths.Gen")
+    return "\n".join(L) + "\n"
